@@ -7,6 +7,7 @@ use crate::{
 };
 use bytes::{Bytes, BytesMut};
 
+#[cfg_attr(kani, repr(u8))] // verification hook: explicit tag instead of a niche, no effect on safe code
 pub(crate) enum RxPacket {
     Connack(ConnackRx),
     Publish(PublishRx),
@@ -45,6 +46,7 @@ impl TryDecode for RxPacket {
     }
 }
 
+#[cfg_attr(kani, repr(u8))] // verification hook: explicit tag instead of a niche, no effect on safe code
 pub(crate) enum TxPacket<'a> {
     Connect(ConnectTx<'a>),
     Publish(PublishTx<'a>),
